@@ -29,6 +29,7 @@ import (
 	"testing"
 
 	bnet "github.com/bio-routing/bio-rd/net"
+	"github.com/bio-routing/bio-rd/protocols/bgp/packet"
 	"github.com/bio-routing/bio-rd/route"
 	"github.com/bio-routing/bio-rd/routingtable"
 	"github.com/bio-routing/bio-rd/routingtable/adjRIBIn"
@@ -66,6 +67,9 @@ type c13Rig struct {
 	// inside a single Loc-RIB event) and at every operation boundary.
 	registry map[*route.Path]c13Obj
 	mutated  string
+	// per Adj-RIB-Out: the session negotiated 4-octet ASNs (option the update sender serializes with)
+	asn4       [3]bool
+	serialized int
 }
 
 // verifyRegistry records the first stored object whose value changed.
@@ -87,6 +91,17 @@ func (r *c13Rig) hookFor(j int) func(bool, *bnet.Prefix, *route.Path) {
 		if add {
 			if _, ok := r.registry[p]; !ok {
 				r.registry[p] = c13Obj{where: fmt.Sprintf("adj-rib-out#%d %s", j, pfx), val: dxDeep(p)}
+			}
+			// the client of a session's Adj-RIB-Out is its update sender: it turns the
+			// path into path attributes and serializes them with the session's options
+			if p.BGPPath != nil && j < len(r.outs) {
+				sa := r.outs[j].s.attrs()
+				if pa, err := packet.PathAttributes(p, sa.IBGP, sa.RouteReflectorClient); err == nil {
+					u := &packet.BGPUpdate{PathAttributes: pa, NLRI: &packet.NLRI{Prefix: pfx}}
+					u.SerializeUpdate(&packet.EncodeOptions{Use32BitASN: r.asn4[j%len(r.asn4)], UseAddPath: r.outs[j].s.AddPathN > 0})
+					r.serialized++
+				}
+				r.verifyRegistry(fmt.Sprintf("when the update sender of adj-rib-out#%d serialized %s (4-octet ASNs: %v)", j, pfx, r.asn4[j%len(r.asn4)]))
 			}
 		}
 	}
@@ -194,6 +209,9 @@ func c13SharedPaths(a dxAttrs, n int) []*route.Path {
 func c13Run(t *rapid.T, c *kit.Case, rec *kit.Recorder, maxSteps int) {
 	bits, pfxs := dxGenUniverse(t, 3)
 	rig := newC13Rig(bits, pfxs)
+	for j := range rig.asn4 {
+		rig.asn4[j] = rapid.Bool().Draw(t, fmt.Sprintf("asn4_%d", j))
+	}
 	s0 := dxSession{Kind: dxEBGP, LocalASN: dxLocalASN, PeerASN: dxPeers[3].ASN, LocalIP: dxLocalIP, PeerIP: dxPeers[3].IP, Cluster: dxClusterID, RouterID: dxRouterID}
 	s1 := dxSession{Kind: dxIBGPRRClient, LocalASN: dxLocalASN, PeerASN: dxLocalASN, LocalIP: dxLocalIP, PeerIP: dxPeers[1].IP, Cluster: dxClusterID, RouterID: dxRouterID}
 	s0.AddPathN = rapid.SampledFrom([]int{0, 0, 2}).Draw(t, "ap0")
@@ -236,7 +254,7 @@ func c13Run(t *rapid.T, c *kit.Case, rec *kit.Recorder, maxSteps int) {
 		switch {
 		case op <= 3: // announcement through an Adj-RIB-In
 			k := rapid.IntRange(0, 1).Draw(t, "in")
-			a := dxGenBGP(t, "p", dxGenOpts{Extras: true})
+			a := dxGenBGP(t, "p", dxGenOpts{Extras: true, BigASNs: true})
 			peer := rig.inSrc[k]
 			a.Src, a.RxPathID = peer.IP, 0
 			if a.EBGP != peer.EBGP {
